@@ -172,6 +172,15 @@ def run_target(reg, key, n=300, seed=0, seconds=20.0, clause_idx=None, gen_overr
             if clause_idx is not None and i != clause_idx:
                 continue
             if callable(e):
+                try:
+                    okc = e(args, result)
+                except Exception as ex:     # noqa
+                    out['errors'].append('ensures#%d: %s: %s' % (i, type(ex).__name__, ex))
+                    continue
+                if not okc:
+                    out['failures'].append({'clause': (getattr(e, '__doc__', None) or 'callable clause %d' % i).strip(), 'index': i,
+                                            'inputs': model, 'result': repr(result)[:500]})
+                    break
                 continue
             try:
                 if not ce.ev(reg.parse_spec(e)):
